@@ -222,6 +222,116 @@ def wrap_args(app, call):
     return out if all(x is not None for x in out) else None
 
 
+def current_stack_arg(fi, expr, store):
+    """Does ``expr`` -- the ``inner`` argument of the wrapping call whose result statement ``store`` puts into
+    ``self._dispatch_wsgi`` -- denote the stack as it is at that moment?  Either the attribute itself, or a local whose
+    single binding ``x = self._dispatch_wsgi`` is executed before every execution of the store with nothing in between
+    that can re-bind the attribute (a store to it, a ``setattr``, a call of a method of the class that stores it).
+    -> list of the temporaries' statements ([] for the attribute itself), or None."""
+    if norm(expr) == 'self._dispatch_wsgi':
+        return []
+    if not isinstance(expr, ast.Name) or expr.id in fi.params():
+        return None
+    vals = assigned_value(fi.node, expr.id)
+    if len(vals) != 1 or vals[0][2] is not None or not isinstance(vals[0][0], ast.Assign) or norm(vals[0][1]) != 'self._dispatch_wsgi':
+        return None
+    asg = vals[0][0]
+    cfg = cfg_of(fi)
+    a_nodes, s_nodes = set(cfg.nodes_of(asg)), set(cfg.nodes_of(store))
+    if not a_nodes or not s_nodes:
+        return None
+    after_store = [m for n in s_nodes for m in cfg.succ[n]]
+    if not cfg.must_pass(a_nodes, cfg.entry, s_nodes) or (s_nodes & cfg.reach(after_store, avoid=a_nodes)):
+        return None          # the store can run (again) without the local having been (re-)read
+    between = (cfg.reach([m for n in a_nodes for m in cfg.succ[n]], avoid=s_nodes) & cfg.coreach(s_nodes, avoid=a_nodes)) - s_nodes - a_nodes
+    rebinders = set(n for n, m in (fi.cls.methods.items() if fi.cls is not None else []) if any(
+        (isinstance(x, ast.Attribute) and x.attr == '_dispatch_wsgi' and isinstance(x.ctx, (ast.Store, ast.Del))) or
+        (isinstance(x, ast.Call) and isinstance(x.func, ast.Name) and x.func.id in ('setattr', 'delattr')) for x in ast.walk(m.node)))
+    for nd in cfg.nodes:
+        if nd.id not in between or nd.stmt is None:
+            continue
+        hosts = [nd.stmt] if not hasattr(nd.stmt, 'body') else [getattr(nd.stmt, f) for f in ('test', 'iter') if isinstance(getattr(nd.stmt, f, None), ast.AST)] + \
+            [i.context_expr for i in getattr(nd.stmt, 'items', [])]
+        for h in hosts:
+            for x in ast.walk(h):
+                if isinstance(x, ast.Attribute) and x.attr == '_dispatch_wsgi' and isinstance(x.ctx, (ast.Store, ast.Del)):
+                    return None
+                if isinstance(x, ast.Call) and isinstance(x.func, ast.Name) and x.func.id in ('setattr', 'delattr'):
+                    return None
+                if isinstance(x, ast.Call) and isinstance(x.func, ast.Attribute) and isinstance(x.func.value, ast.Name) and \
+                        x.func.value.id == 'self' and x.func.attr in rebinders:
+                    return None
+    return [asg]
+
+
+def list_segments(fi, name, use):
+    """Symbolic contents of a local list that is built in straight-line code at the top level of the function and read by
+    statement ``use``: an ordered list of segments ('item', expr) -- one element -- / ('each', expr) -- the elements of an
+    iterable (a comprehension is kept as such).  The list is one plain assignment of a display / ``list(x)`` / a ``+`` of
+    those, followed by top-level ``.append(e)`` / ``.extend(x)`` / ``+= x`` statements, all before ``use``; any other
+    mention of the name that could change it (another binding, another method call, being passed on) -> None."""
+    if name in fi.params():
+        return None
+    top = list(fi.node.body)
+    vals = assigned_value(fi.node, name)
+    plain = [x for x in vals if not isinstance(x[1], ast.AugAssign)]
+    if len(plain) != 1 or plain[0][2] is not None or not isinstance(plain[0][0], ast.Assign) or plain[0][0] not in top:
+        return None
+
+    def of(e):
+        if isinstance(e, (ast.List, ast.Tuple)):
+            return [('each', x.value) if isinstance(x, ast.Starred) else ('item', x) for x in e.elts]
+        if isinstance(e, ast.Call) and isinstance(e.func, ast.Name) and e.func.id in ('list', 'tuple') and not e.keywords and len(e.args) <= 1:
+            return [('each', e.args[0])] if e.args else []
+        if isinstance(e, ast.BinOp) and isinstance(e.op, ast.Add):
+            l, r = of(e.left), of(e.right)
+            return None if l is None or r is None else l + r
+        if isinstance(e, (ast.ListComp, ast.GeneratorExp)):
+            return [('each', e)]
+        return None
+    segs = of(plain[0][1])
+    if segs is None:
+        return None
+    use_top = use
+    while use_top is not None and use_top not in top:
+        use_top = fi.mod.parents.get(use_top)
+    if use_top is None or top.index(plain[0][0]) >= top.index(use_top):
+        return None
+    accounted = set([id(plain[0][0])])
+    for st in top[top.index(plain[0][0]) + 1:top.index(use_top)]:
+        if isinstance(st, ast.Expr) and isinstance(st.value, ast.Call) and isinstance(st.value.func, ast.Attribute) and \
+                isinstance(st.value.func.value, ast.Name) and st.value.func.value.id == name:
+            c = st.value
+            if c.keywords or len(c.args) != 1 or isinstance(c.args[0], ast.Starred):
+                return None
+            if c.func.attr == 'append':
+                segs.append(('item', c.args[0]))
+            elif c.func.attr == 'extend':
+                segs.append(('each', c.args[0]))
+            else:
+                return None
+            accounted.add(id(st))
+        elif isinstance(st, ast.AugAssign) and isinstance(st.target, ast.Name) and st.target.id == name:
+            more = of(st.value) if isinstance(st.op, ast.Add) else None
+            if more is None:
+                return None
+            segs.extend(more)
+            accounted.add(id(st))
+    # every other mention of the name is a plain read inside ``use`` (its iteration)
+    for st in stmts_of(fi.node):
+        if id(st) in accounted:
+            continue
+        hosts = [st] if not hasattr(st, 'body') else [getattr(st, f) for f in ('test', 'iter', 'value') if isinstance(getattr(st, f, None), ast.AST)]
+        for h in hosts:
+            for n in ast.walk(h):
+                if isinstance(n, ast.Name) and n.id == name:
+                    par = fi.mod.parents.get(n)
+                    is_iter = isinstance(st, ast.For) and st.iter is n
+                    if not is_iter or isinstance(n.ctx, ast.Store):
+                        return None
+    return segs
+
+
 # ---- R13.a -----------------------------------------------------------------------------------------------------------
 def check_delegation(rep, app):
     repo = rep.repo
@@ -379,10 +489,11 @@ def check_wrap_order(rep, app):
                 norm(argn(src, gps[0], 0)) == 'self.routes' and all(x == 'self.middlewares' for x in extra) and len(extra) <= 1
         ws = wrap_stores(lf, lp)
         wa = wrap_args(app, ws[0][1]) if len(ws) == 1 else None
-        ok = ok and wa is not None and isinstance(lp.target, ast.Name) and norm(wa[1]) == lp.target.id and norm(wa[2]) == 'self._dispatch_wsgi'
+        cur = current_stack_arg(lf, wa[2], ws[0][0]) if wa is not None else None
+        ok = ok and wa is not None and isinstance(lp.target, ast.Name) and norm(wa[1]) == lp.target.id and cur is not None
         if ok:
-            # the loop body is that store (and the temporaries naming its value), nothing that skips or repeats a middleware
-            allowed = set(id(x) for x in [ws[0][0]] + ws[0][2])
+            # the loop body is that store (and the temporaries naming its value / the stack it wraps), nothing that skips or repeats a middleware
+            allowed = set(id(x) for x in [ws[0][0]] + ws[0][2] + cur)
             ok = all(id(b) in allowed for b in lp.body) and not lp.orelse
     rep.check('R13.b', fkey(ai, 'wrap loop'), ok,
               'wrappers are applied innermost-first over the reverse of all middlewares, each wrapping the current stack: the first middleware ends up outermost' if ok else
@@ -401,7 +512,7 @@ def check_wrap_order(rep, app):
     sh = app.func('Application.set_error_handler')
     w = wrap_stores(sh)
     wa = wrap_args(app, w[0][1]) if len(w) == 1 else None
-    ok = wa is not None and norm(wa[2]) == 'self._dispatch_wsgi'
+    ok = wa is not None and current_stack_arg(sh, wa[2], w[0][0]) is not None
     rep.check('R13.b', fkey(sh), ok, 'set_error_handler wraps the current stack with the handler\'s wsgi_wrapper' if ok else
               'set_error_handler does not wrap self._dispatch_wsgi', app, sh.node)
 
@@ -430,6 +541,8 @@ def iteration_levels(fi, stmt):
         if not isinstance(lp.target, ast.Name):
             return None
         it = deref(fi, lp.iter)
+        if isinstance(lp.iter, ast.Name) and any(e.root == lp.iter.id for e in effects.effects_in(fi.node, aug_names=True)):
+            it = lp.iter      # a list that is extended after it was created: its first value does not describe it (see _expand_group_walks)
         flat = None
         if isinstance(it, ast.Call) and norm(it.func) in ('itertools.chain.from_iterable', 'chain.from_iterable') and len(it.args) == 1 and not it.keywords:
             flat = _comp_of(fi, it.args[0])
@@ -464,6 +577,41 @@ def iteration_levels(fi, stmt):
     return levels
 
 
+def _expand_group_walks(fi, st, levels):
+    """A walk whose outermost loop runs over a local list of *groups* built in straight-line code (``groups = [a]`` ...
+    ``groups.extend(r.ms for r in rs)`` ... ``for g in groups: for x in g:``) stands for one walk per segment of that
+    list, in order: the outer variable is replaced by the segment's element.  -> [levels]; [levels] itself otherwise."""
+    if not levels:
+        return [levels]
+    cur = fi.mod.parents.get(st)
+    outer = None
+    while cur is not None and cur is not fi.node:
+        if isinstance(cur, ast.For):
+            outer = cur
+        cur = fi.mod.parents.get(cur)
+    v0, it0 = levels[0]
+    if outer is None or not isinstance(outer.iter, ast.Name) or not isinstance(outer.target, ast.Name) or outer.target.id != v0:
+        return [levels]
+    segs = list_segments(fi, outer.iter.id, outer)
+    if segs is None:
+        if any(e.root == outer.iter.id for e in effects.effects_in(fi.node, aug_names=True)):
+            raise AnalysisError('%s: the list %s the walk runs over is modified in a way that is not followed' % (fi.qualname, outer.iter.id))
+        return [levels]
+    out = []
+    for kind, e in segs:
+        if kind == 'item':
+            out.append([(t, _subst(i, {v0: e})) for t, i in levels[1:]])
+            continue
+        e = deref(fi, e)
+        if isinstance(e, (ast.GeneratorExp, ast.ListComp)):
+            if any(g.ifs or g.is_async or not isinstance(g.target, ast.Name) for g in e.generators):
+                raise AnalysisError('%s: a filtered / destructuring comprehension feeds the list of groups' % fi.qualname)
+            out.append([(g.target.id, g.iter) for g in e.generators] + [(t, _subst(i, {v0: e.elt})) for t, i in levels[1:]])
+        else:
+            out.append([(v0, e)] + list(levels[1:]))
+    return out
+
+
 def check_collect_middlewares(rep, app):
     gm = app.func('_get_all_middlewares')
     ps = gm.params()
@@ -488,18 +636,19 @@ def check_collect_middlewares(rep, app):
                 cs = conds(gm, st)
                 dedup = has_cond(cs, lambda t: norm(t) == '%s not in %s' % (el, rv), True) or \
                     has_cond(cs, lambda t: norm(t) == '%s in %s' % (el, rv), False)
-                (nested if len(levels) == 2 else flat).append((a, el, st, levels, dedup))
-            ok = len(nested) == 1 and all(d for _, _, _, _, d in nested + flat)
+                for k, lv in enumerate(_expand_group_walks(gm, st, levels)):
+                    (nested if len(lv) == 2 else flat).append((a, el, st, lv, dedup, (st.lineno, k)))
+            ok = len(nested) == 1 and all(w_[4] for w_ in nested + flat)
             if ok:
-                a, el, st, levels, _ = nested[0]
+                a, el, st, levels = nested[0][:4]
                 ok = levels[1][0] == el and norm(levels[1][1]) == '%s.middlewares' % levels[0][0]
                 outer = levels[0][1]
                 base = reversal_of(outer)
                 ok = ok and norm(base if base is not None else outer) == ps[0]
-            for a, el, st, levels, _ in flat:
+            for a, el, st, levels, _, order in flat:
                 # the application's own list, walked directly in list order, before the routes' middlewares
                 ok = ok and len(levels) == 1 and levels[0][0] == el and len(ps) == 2 and norm(levels[0][1]) == ps[1] and \
-                    st.lineno < nested[0][2].lineno
+                    bool(nested) and order < nested[0][5]
     rep.check('R13.b', fkey(gm), ok, 'the application\'s and each route\'s middlewares are walked in order; a type already collected is skipped '
               '(first occurrence kept)' if ok else
               '_get_all_middlewares no longer keeps list order with first-occurrence de-duplication', app, gm.node)
